@@ -207,6 +207,9 @@ def _run_report(lines):
     return {'status': o['status'], 'exc': (o.get('exc') or '')[:200], 'report': sim.strip_clock(o['report']) if o.get('report') is not None else None}
 
 
+PROBE_TIMEOUT = 150.0      # seconds per run of a default probe (ordinary runs take 0.3-5 s)
+
+
 def default_task(payload):
     """'the schema's default is the one the simulator enforces': for each parameter, the run that leaves it out and the run that supplies the
     schema's default (in the schema's unit) must be the same run - same acceptance, same report."""
@@ -219,16 +222,23 @@ def default_task(payload):
         if name not in base_names and shared is not None:
             a = shared
         else:
-            tag = runner.fork_exec(_run_report, omitted, timeout=900)
+            tag = runner.fork_exec(_run_report, omitted, timeout=PROBE_TIMEOUT)
             res['execs'] += 1
+            if tag[0] == 'timeout':
+                # e.g. the closed-loop geometry at its default lateral depth: minutes per run; the probe is skipped and listed, not judged
+                check.note(res, 'default_probe_not_run_time_limit', f'{fam}: {name} left out')
+                continue
             if tag[0] != 'ok':
                 res['infra'].append(f'[{fam}] run without {name!r} failed in the harness: {tag[1]}')
                 continue
             a = tag[1]
             if name not in base_names:
                 shared = a
-        tag = runner.fork_exec(_run_report, omitted + [f'{name}, {dflt}'], timeout=900)
+        tag = runner.fork_exec(_run_report, omitted + [f'{name}, {dflt}'], timeout=PROBE_TIMEOUT)
         res['execs'] += 1
+        if tag[0] == 'timeout':
+            check.note(res, 'default_probe_not_run_time_limit', f'{fam}: {name} = {dflt}')
+            continue
         if tag[0] != 'ok':
             res['infra'].append(f'[{fam}] run with {name!r} = {dflt} failed in the harness: {tag[1]}')
             continue
